@@ -21,6 +21,7 @@ var registry = map[string]simkit.World{
 	"C09": fsmworld.ACLWorld{Prop: "C09"},
 	"C10": fsmworld.C10{},
 	"C11": fsmworld.C11{},
+	"C12": fsmworld.C12{},
 	"C13": fsmworld.C13{},
 	"C15": fsmworld.C15{},
 	"C16": fsmworld.C16{},
